@@ -1412,7 +1412,8 @@ def _trace_sort_key(w):
             return int(s)
         except ValueError:
             return s
-    return [tryint(c) for c in re.split('([0-9]+)', w)]
+    # the raw name breaks ties such as "x1" vs "x01" deterministically
+    return [tryint(c) for c in re.split('([0-9]+)', w)], w
 
 
 class TraceStorage(Mapping):
